@@ -474,6 +474,11 @@ svalue_t *safe_apply (const char *fun, object_t * ob, int num_arg, int where)
   else
     {
       restore_context (&econ);
+      /* The evaluation budget ran out inside the call and was refreshed for the error handler.  The
+       * error stops here, but the evaluation that made this call has no budget left: without this it
+       * would go on with a full one, once per call. */
+      if (get_error_state (ES_MAX_EVAL_COST))
+        eval_cost = 1;
       ret = 0;
     }
   pop_context (&econ);
